@@ -239,13 +239,12 @@ fn extract_files_with_metadata(
         }
 
         // Extract file data
-        let data = match archive.read_file(&file.name) {
-            Ok(data) => data,
-            Err(e) => {
-                log::warn!("Failed to read file {}: {}", file.name, e);
-                continue;
-            }
-        };
+        // A file that cannot be read is not one of the explicitly requested
+        // exclusions: dropping it would silently lose data, so fail the rebuild.
+        let data = archive.read_file(&file.name).map_err(|e| {
+            log::warn!("Failed to read file {}: {}", file.name, e);
+            e
+        })?;
 
         // Extract metadata
         let file_meta = FileMetadata {
